@@ -557,8 +557,15 @@ pub fn run(line: &str) -> String {
     if let Some(m) = r.mismatch {
         return format!("gen-mismatch {m}");
     }
-    let mut line = format!("{} {}", hex_or_dash(&r.out), nat_list_str(&r.inv));
-    if let Some(flag) = reference::check(&case, &r.out) {
+    let (expected, clean, flag) = reference::check(&case, &r.out);
+    let mut line = format!(
+        "{} {} {} {}",
+        hex_or_dash(&r.out),
+        nat_list_str(&r.inv),
+        hex_or_dash(&expected),
+        clean as u8
+    );
+    if let Some(flag) = flag {
         line.push_str(&format!(" ||ORACLE:C07:{flag}"));
     }
     line
@@ -1147,8 +1154,8 @@ mod reference {
         }
     }
 
-    /// `Some(flag text)` if the implementation's output is not the documented edit.
-    pub fn check(case: &Case, out: &[u8]) -> Option<String> {
+    /// The documented output, and `Some(flag text)` if the implementation's output differs from it.
+    pub fn check(case: &Case, out: &[u8]) -> (Vec<u8>, bool, Option<String>) {
         let mut ed = Ed {
             case,
             open: vec![],
@@ -1160,8 +1167,10 @@ mod reference {
             saw_eof_unclosed: false,
         };
         ed.run();
+        // "clean": no element with end-region edits ended without an end tag of its own
+        let clean = !ed.saw_implicit && !ed.saw_eof_unclosed;
         if ed.out == out {
-            return None;
+            return (ed.out, clean, None);
         }
         let tag = if ed.saw_implicit {
             "implicit-close"
@@ -1170,6 +1179,7 @@ mod reference {
         } else {
             "other"
         };
-        Some(format!("{tag} expected={} got={}", hex_or_dash(&ed.out), hex_or_dash(out)))
+        let msg = format!("{tag} expected={} got={}", hex_or_dash(&ed.out), hex_or_dash(out));
+        (ed.out, clean, Some(msg))
     }
 }
